@@ -116,7 +116,8 @@ fn run_on<F: Float, D: Distance<F> + 'static, S: ndarray::Data<Elem = F>>(case: 
     // build the three indices
     let mut idx = Vec::new();
     for (name, kind) in KINDS.iter() {
-        match guarded(|| kind.from_batch_with_leaf_size(batch, case.leaf, dist_fn.clone())) {
+        // leaf == 0 in a case stands for `from_batch`, the constructor with the default leaf size
+        match guarded(|| if case.leaf == 0 { kind.from_batch(batch, dist_fn.clone()) } else { kind.from_batch_with_leaf_size(batch, case.leaf, dist_fn.clone()) }) {
             Ok(Ok(ix)) => idx.push((*name, ix)),
             Ok(Err(e)) => {
                 viols.push(Violation::new(
@@ -491,6 +492,8 @@ fn main() {
         "cases = (point set, float type, metric, leaf size); point sets: all multisets of <=5 / <=6 points of {0..4} (1-D, duplicates), \
          all subsets of <=5 (quick) / <=7 (thorough) points of the 3x3 lattice, their generic-position images (constant jitter table), all subsets of <=4 / <=6 corners of the unit cube, \
          a dimension sweep d in {1,2,3,8,16} over all multisets of <=4 of 5 pool vectors, plus empty / single / all-equal sets; \
+         deep trees: the 4x4 lattice minus every set of <=1 / <=2 points, the 5x5 lattice with a duplicated row, 34 / 70 1-D points with duplicates, the 3x3x3 lattice, \
+         each with leaf sizes {default via from_batch, 1, 4, 16} (thorough: + 2, 3, 5, n) and every half-lattice query of the bounding box; \
          per case: every lattice and half-lattice query + one far query, k = 0..n+2, radii = 0, every distinct query-point distance exactly, \
          every midpoint between consecutive distances, below the minimum, beyond the maximum; all three index kinds; the 2-D / 3-D / d-dimensional exact families are additionally handed over as a column-major array and as a reversed-row view of a reversed copy (L1, L2): the answers must be those of the standard layout (k-d tree: or its documented contiguity panic). \
          evaluations = individual queries; non-trivial = k-nearest with 0<k<n on n>=2 points, range queries whose open ball contains some but not all points; \
@@ -536,12 +539,74 @@ fn main() {
             sets.push((format!("dim{}", d), ms.iter().map(|&i| pool[i].clone()).collect(), d));
         }
     }
+    // E: deep trees - point sets well above the small leaf sizes and above the default leaf size 16:
+    // the 4x4 lattice minus every set of <=1 (quick) / <=2 (thorough) points, the whole 5x5 lattice with a
+    // duplicated row of points, 34 / 70 1-D points with duplicates, and the 3x3x3 lattice
+    let lat4 = en::lattice_points(2, 4);
+    for ss in en::subsets_upto(16, 0, ctx.pick(1, 2)) {
+        let p: Vec<Vec<f64>> = (0..16).filter(|i| !ss.contains(i)).map(|i| lat4[i].iter().map(|&v| v as f64).collect()).collect();
+        sets.push(("deep4x4".into(), p, 2));
+    }
+    {
+        let lat5 = en::lattice_points(2, 5);
+        let mut p: Vec<Vec<f64>> = lat5.iter().map(|q| q.iter().map(|&v| v as f64).collect()).collect();
+        for a in 0..5 {
+            p.push(vec![a as f64, 2.0]);
+        }
+        sets.push(("deep5x5dup".into(), p, 2));
+        let m = ctx.pick(34, 70);
+        let p1: Vec<Vec<f64>> = (0..m).map(|i| vec![((i * 7) % 23) as f64 * 0.5]).collect();
+        sets.push(("deep1d".into(), p1, 1));
+        let lat3 = en::lattice_points(3, 3);
+        sets.push(("deep3x3x3".into(), lat3.iter().map(|q| q.iter().map(|&v| v as f64).collect()).collect(), 3));
+    }
+    // F: deep trees in generic position - a fixed scatter (constant LCG table, coordinates multiples of 1/8 so that
+    // L1 / Linf / squared L2 are exact) in 2-D and 3-D, in three input orders (as generated, sorted by the first
+    // coordinate, sorted by distance from the centroid - far points last); symmetric lattices hide errors that
+    // depend on which points a node summarises
+    for &(d, n) in ctx.pick(&[(2usize, 40usize), (3, 40)][..], &[(2, 40), (3, 40), (2, 100), (3, 100), (8, 60)][..]) {
+        let mut st: u64 = 0x9E37_79B9 + d as u64 * 1000 + n as u64;
+        let mut next = || {
+            st = st.wrapping_mul(6364136223846793005).wrapping_add(1442695040888963407);
+            ((st >> 33) % 64) as f64 / 8.0
+        };
+        let base: Vec<Vec<f64>> = (0..n).map(|_| (0..d).map(|_| next()).collect()).collect();
+        sets.push((format!("deep_scatter{}d", d), base.clone(), d));
+        let mut byx = base.clone();
+        byx.sort_by(|a, b| a.partial_cmp(b).unwrap());
+        sets.push((format!("deep_scatter{}d_sorted", d), byx, d));
+        let cen: Vec<f64> = (0..d).map(|j| base.iter().map(|p| p[j]).sum::<f64>() / n as f64).collect();
+        let mut byr = base.clone();
+        byr.sort_by(|a, b| refmath::dist(refmath::Metric::L2, a, &cen).partial_cmp(&refmath::dist(refmath::Metric::L2, b, &cen)).unwrap());
+        sets.push((format!("deep_scatter{}d_far_last", d), byr, d));
+    }
     let metrics = ["L1", "L2", "Linf", "Lp3", "Lp1.5"];
     let floats = ["f64", "f32"];
     let mut cases: Vec<Case> = Vec::new();
     for (fam, pts, d) in &sets {
         let n = pts.len();
-        let queries: Vec<Vec<f64>> = if *d == 1 {
+        let deep = fam.starts_with("deep");
+        let queries: Vec<Vec<f64>> = if fam.starts_with("deep_scatter") {
+            // every point itself, the midpoint of every consecutive pair, the centroid, one far query
+            let mut q: Vec<Vec<f64>> = pts.clone();
+            for w in pts.windows(2) {
+                q.push((0..*d).map(|j| (w[0][j] + w[1][j]) / 2.0).collect());
+            }
+            q.push((0..*d).map(|j| pts.iter().map(|p| p[j]).sum::<f64>() / n as f64).collect());
+            q.push((0..*d).map(|j| 40.0 - 90.0 * j as f64).collect());
+            q
+        } else if deep {
+            // every half-lattice position of the bounding box (3-D: every lattice position and the centre offsets) + one far query
+            let mx = pts.iter().flat_map(|p| p.iter().cloned()).fold(0.0f64, f64::max);
+            let steps = (mx * 2.0) as usize;
+            let mut q: Vec<Vec<f64>> = match *d {
+                1 => (0..=steps).map(|i| vec![i as f64 * 0.5]).collect(),
+                2 => (0..=steps).flat_map(|a| (0..=steps).map(move |b| vec![a as f64 * 0.5, b as f64 * 0.5])).collect(),
+                _ => (0..=steps).flat_map(|a| (0..=steps).flat_map(move |b| (0..=steps).step_by(2).map(move |c| vec![a as f64 * 0.5, b as f64 * 0.5, c as f64 * 0.5 + 0.25]))).collect(),
+            };
+            q.push((0..*d).map(|j| 40.0 - 90.0 * j as f64).collect());
+            q
+        } else if *d == 1 {
             let mut q: Vec<Vec<f64>> = (0..=8).map(|i| vec![i as f64 * 0.5]).collect();
             q.push(vec![100.0]);
             q
@@ -572,6 +637,13 @@ fn main() {
         if ctx.thorough() {
             leafs.push(2);
             leafs.push(3);
+        }
+        if deep {
+            // 0 = `from_batch` (default leaf size); 4 and 16 put several levels / one level above the leaves
+            leafs = vec![0, 1, 4, 16];
+            if ctx.thorough() {
+                leafs.extend([2, 3, 5, n]);
+            }
         }
         leafs.sort();
         leafs.dedup();
